@@ -203,6 +203,44 @@ def classify(diags, meta):
 
 
 def check_unit(u, scratch, args):
+    """check_unit_once, plus: a module-level `const` that extracted code newly refers to (a literal was given a name) is
+    pulled in mechanically and the unit is re-run — a constant's value is its whole meaning, so nothing is assumed.
+    (A new helper FUNCTION is not pulled in: without a contract its result would be unknown and the caller's obligations
+    would fail for want of one, which is not a verdict about the code; that stays undecided.)"""
+    res = check_unit_once(u, scratch, args)
+    for _ in range(3):
+        missing = None
+        for m in res.get("undecided", []):
+            mm = re.search(r"cannot find value `([A-Z][A-Z0-9_]+)` in this scope", m)
+            if mm:
+                missing = mm.group(1)
+                break
+        if not missing:
+            break
+        found = None
+        for f in sorted({it["file"] for it in u.get("items", [])}):
+            try:
+                txt = open(os.path.join(REPO, f)).read()
+            except OSError:
+                continue
+            if re.search(r"^(pub(\([a-z]+\))?\s+)?const\s+" + re.escape(missing) + r"\s*:", txt, re.M):
+                found = f
+                break
+        if not found:
+            break
+        dyn = os.path.join(scratch, u["unit"] + ".dyn")
+        shutil.rmtree(dyn, ignore_errors=True)
+        shutil.copytree(u["_dir"], dyn)
+        u = dict(u, _dir=dyn, items=[{"file": found, "kind": "const", "name": missing, "subst_optional": True,
+                                        "subst": [[": &str", ": &'static str", "N7"]]}] + list(u.get("items", [])))
+        uj = {k: v for k, v in u.items() if not k.startswith("_")}
+        json.dump(uj, open(os.path.join(dyn, "unit.json"), "w"), indent=1)
+        res = check_unit_once(u, scratch, args)
+        res.setdefault("notes", []).append(f"module-level const `{missing}` of {found} pulled into the extraction")
+    return res
+
+
+def check_unit_once(u, scratch, args):
     """Run extractor + verus (+ canary) on one unit. Returns a result dict."""
     name = u["unit"]
     udir = u["_dir"]
